@@ -120,6 +120,10 @@ func (t *template) Frag(ctx context.Context) iter.Seq[string] {
 
 					if v, ok := argSet[name]; ok {
 						if v.IsNil() {
+							if c == '\'' {
+								// the delimiter belongs to the placeholder even when it renders nothing
+								c = s.Next()
+							}
 							continue
 						}
 
